@@ -35,18 +35,48 @@ Proof.
   destruct H as [H | []]. exists l. auto.
 Qed.
 
+Lemma in_resize_flag : forall flags lv excl e,
+  In e (resize_effects flags lv excl) -> exists l, e = RszParity (N.of_nat l) /\ In l lv /\ excl l = false /\ nth_bool flags l false = true.
+Proof.
+  unfold resize_effects. intros flags lv excl e H. apply in_flat_map in H. destruct H as [l [Hl H]].
+  destruct (excl l) eqn:E; simpl in H; [tauto |].
+  destruct (nth_bool flags l false) eqn:F; simpl in H; [| tauto].
+  destruct H as [H | []]. exists l. auto.
+Qed.
+
+(* the appearance of a parity file that did not exist (parity_create, O_CREAT) *)
+Definition is_creation (p : pre) (e : effect) : Prop :=
+  exists l, e = RszParity (N.of_nat l) /\ In l (levels p) /\ nth_bool (p_parity_absent p) l false = true.
+Definition no_parity_absent (p : pre) : Prop := forall l, nth_bool (p_parity_absent p) l false = false.
+
+Lemma in_create : forall p excl e, In e (create_effects p excl) -> is_creation p e /\ exists l, e = RszParity (N.of_nat l) /\ In l (levels p) /\ excl l = false.
+Proof.
+  unfold create_effects. intros p excl e H. destruct (in_resize_flag _ _ _ _ H) as [l [E [Hl [X F]]]].
+  split; [exists l; auto | exists l; auto].
+Qed.
+
 (* ------------------------------------------------------------------------------------------- the bodies *)
 
 Definition is_content (p : pre) (e : effect) : Prop := exists i, e = WContent i /\ i < p_ncontent p.
 Definition is_parity_write (p : pre) (e : effect) : Prop := exists l s, e = WParity l s /\ l < p_level p.
 Definition is_parity_resize (p : pre) (e : effect) : Prop := exists l, e = RszParity l /\ l < p_level p.
 
+Lemma create_is_resize : forall p excl e, In e (create_effects p excl) -> exists l, e = RszParity l /\ l < p_level p.
+Proof.
+  intros p excl e H. destruct (in_create _ _ _ H) as [_ [l [E [Hl _]]]]. exists (N.of_nat l). split; [exact E | exact (in_levels _ _ Hl)].
+Qed.
+
 Lemma sync_body_effects : forall o p e, In e (fst (sync_body o p)) ->
   is_content p e \/ is_parity_write p e \/ is_parity_resize p e.
 Proof.
   intros o p e. unfold sync_body.
-  repeat match goal with |- context [if ?c then ([], _) else _] => destruct c; [simpl; tauto |] end.
-  cbv zeta. simpl fst. rewrite !in_app_iff. intros [H | [H | [H | H]]].
+  repeat match goal with
+         | |- context [if ?c then ([], _) else _] => destruct c; [simpl; tauto |]
+         | |- context [if ?c then (create_effects _ _, _) else _] =>
+             destruct c; [simpl fst; intros H; right; right; exact (create_is_resize _ _ _ H) |]
+         end.
+  cbv zeta. simpl fst. rewrite !in_app_iff. intros [[H | H] | [H | [H | H]]].
+  - right. right. exact (create_is_resize _ _ _ H).
   - apply in_resize in H. destruct H as [l [E [Hl _]]]. right. right. exists (N.of_nat l). split; [exact E | exact (in_levels _ _ Hl)].
   - destruct (_ && _) in H; [left; exact (in_all_content _ _ H) | destruct H].
   - apply in_flat_map in H. destruct H as [s [_ H]]. apply in_map_iff in H. destruct H as [l [E Hl]].
@@ -55,10 +85,16 @@ Proof.
     destruct (_ || _) in H; [left; exact (in_all_content _ _ H) | destruct H].
 Qed.
 
-Lemma sync_body_refused : forall o p, snd (sync_body o p) = ExRefused -> fst (sync_body o p) = [].
+(* a refused sync has at most created the parity files that did not exist *)
+Lemma sync_body_refused : forall o p e, snd (sync_body o p) = ExRefused -> In e (fst (sync_body o p)) -> is_creation p e.
 Proof.
-  intros o p. unfold sync_body.
-  repeat match goal with |- context [if ?c then ([], _) else _] => destruct c; [reflexivity |] end.
+  intros o p e. unfold sync_body.
+  repeat match goal with
+         | |- context [if ?c then ([], _) else _] => destruct c; [simpl; tauto |]
+         | |- context [if ?c then (create_effects _ _, ExRefused) else _] =>
+             destruct c; [simpl; intros _ H; exact (proj1 (in_create _ _ _ H)) |]
+         | |- context [if ?c then (create_effects _ _, ExErrors) else _] => destruct c; [simpl; discriminate |]
+         end.
   cbv zeta. simpl snd. destruct (p_sync_errors p); discriminate.
 Qed.
 
@@ -233,8 +269,11 @@ Proof.
   simpl negb. cbv iota.
   destruct (negb (forallb _ _)); [simpl; tauto |].
   cbv zeta. simpl fst. simpl snd. rewrite !in_app_iff. intros [H | [H | H]].
-  - apply in_resize in H. destruct H as [l [E [Hl X]]]. left. exists (N.of_nat l).
-    rewrite Nnat.Nat2N.id. split; [exact E | split; [exact (in_levels _ _ Hl) | exact X]].
+  - destruct H as [H | H].
+    + destruct (in_create _ _ _ H) as [_ [l [E [Hl X]]]]. left. exists (N.of_nat l).
+      rewrite Nnat.Nat2N.id. split; [exact E | split; [exact (in_levels _ _ Hl) | exact X]].
+    + apply in_resize in H. destruct H as [l [E [Hl X]]]. left. exists (N.of_nat l).
+      rewrite Nnat.Nat2N.id. split; [exact E | split; [exact (in_levels _ _ Hl) | exact X]].
   - destruct (N.ltb (o_blockstart o) (p_blockmax p)); simpl in H; [| tauto].
     destruct (items_effects_justified _ _ _ WF H) as [it [I J]].
     right. left. exists it. split; [exact I |]. apply data_justified_app_l. exact J.
@@ -276,31 +315,41 @@ Proof.
     + intros [H | [H | H]]; [left; exact (in_log_eff _ _ H) | auto | auto].
 Qed.
 
-Lemma body_refused_empty : forall c o p, snd (command_body c o p) = ExRefused -> body_effects c o p = [].
+Lemma body_refused_creation : forall c o p e, snd (command_body c o p) = ExRefused -> In e (body_effects c o p) ->
+  c = Sync /\ is_creation p e.
 Proof.
-  intros c o p. unfold body_effects, command_body.
-  destruct c; try reflexivity;
-    (destruct (negb (read_ok _ o p)); [reflexivity |]); cbv zeta; simpl fst; simpl snd; try (intros _; reflexivity).
-  - apply check_body_refused.
-  - intros H. exact (scrub_body_refused _ _ H).
-  - intros H. exact (sync_body_refused _ _ H).
-  - apply check_body_refused.
-  - destruct (negb (p_pool_conf p)); [reflexivity | discriminate].
+  intros c o p e. unfold body_effects, command_body.
+  destruct c; try (simpl; tauto);
+    (destruct (negb (read_ok _ o p)); [simpl; tauto |]); cbv zeta; simpl fst; simpl snd; try (simpl; tauto).
+  - intros R H. rewrite (check_body_refused _ _ _ R) in H. destruct H.
+  - intros R H. rewrite (scrub_body_refused _ _ R) in H. destruct H.
+  - intros R H. split; [reflexivity | exact (sync_body_refused _ _ _ R H)].
+  - intros R H. rewrite (check_body_refused _ _ _ R) in H. destruct H.
+  - destruct (negb (p_pool_conf p)); [simpl; tauto | discriminate].
   - discriminate.
 Qed.
 
-Lemma refused_only_lock_log : forall c o p e, exitc c o p = ExRefused -> In e (effects c o p) -> e = WLock \/ e = WLog.
+(* what a command that refuses may have done: the lock file, the log, and -- sync only -- the creation of parity files that did
+   not exist (parity_create runs before the size test) *)
+Lemma refused_effects : forall c o p e, exitc c o p = ExRefused -> In e (effects c o p) ->
+  e = WLock \/ e = WLog \/ (c = Sync /\ is_creation p e).
 Proof.
   intros c o p e. unfold exitc, effects, run, run_full.
   destruct (negb (opts_compatible c o)); [simpl; tauto |].
-  destruct (negb (p_conf_ok p)); [simpl; intros _ H; right; exact (in_log_eff _ _ H) |].
+  destruct (negb (p_conf_ok p)); [simpl; intros _ H; right; left; exact (in_log_eff _ _ H) |].
   destruct (skips_lock c o).
-  - simpl. intros R. rewrite in_app_iff. intros [H | H]; [right; exact (in_log_eff _ _ H) |].
-    apply body_refused_empty in R. unfold body_effects in R. rewrite R in H. destruct H.
+  - simpl. intros R. rewrite in_app_iff. intros [H | H]; [right; left; exact (in_log_eff _ _ H) |].
+    right. right. exact (body_refused_creation _ _ _ _ R H).
   - destruct (negb (p_lock_free p)); simpl; intros R; rewrite !in_app_iff; simpl.
-    + intros [H | [H | []]]; [right; exact (in_log_eff _ _ H) | left; congruence].
-    + intros [H | [H | H]]; [right; exact (in_log_eff _ _ H) | left; congruence |].
-      apply body_refused_empty in R. unfold body_effects in R. rewrite R in H. destruct H.
+    + intros [H | [H | []]]; [right; left; exact (in_log_eff _ _ H) | left; congruence].
+    + intros [H | [H | H]]; [right; left; exact (in_log_eff _ _ H) | left; congruence |].
+      right. right. exact (body_refused_creation _ _ _ _ R H).
+Qed.
+
+Lemma refused_only_lock_log : forall c o p e, no_parity_absent p -> exitc c o p = ExRefused -> In e (effects c o p) -> e = WLock \/ e = WLog.
+Proof.
+  intros c o p e NA R H. destruct (refused_effects _ _ _ _ R H) as [E | [E | [_ [l [_ [_ F]]]]]]; [auto | auto |].
+  rewrite (NA l) in F. discriminate.
 Qed.
 
 Lemma run_effects_split_reports : forall c o p e, In e (effects c o p) ->
@@ -387,7 +436,8 @@ Proof.
   revert B. unfold check_body. destruct (N.ltb (p_blockmax p) (o_blockstart o)); [simpl; tauto |].
   simpl negb. cbv iota. destruct (negb (forallb _ _)); [simpl; tauto |].
   cbv zeta. simpl fst. rewrite !in_app_iff. intros [B | [B | B]].
-  - apply in_resize in B. destruct B as [l [E _]]. discriminate.
+  - destruct B as [B | B]; [destruct (create_is_resize _ _ _ B) as [l [E _]]; discriminate |].
+    apply in_resize in B. destruct B as [l [E _]]. discriminate.
   - revert B. destruct (N.ltb (o_blockstart o) (p_blockmax p)); simpl; [| tauto]. intros B.
     destruct (items_effects_data_only _ _ _ B) as [d [q [k E]]]. discriminate.
   - revert B. destruct (N.ltb (o_blockstart o) (p_blockmax p)); simpl; [| tauto]. intros B.
@@ -497,7 +547,7 @@ Proof.
 Qed.
 
 Lemma interlock_refuses : forall t o p, fires t p = true -> overridden t o = false ->
-  exitc Sync o p = ExRefused /\ forall e, In e (effects Sync o p) -> lock_or_log e.
+  exitc Sync o p = ExRefused /\ forall e, In e (effects Sync o p) -> lock_or_log e \/ is_creation p e.
 Proof.
   intros t o p F V.
   assert (R : exitc Sync o p = ExRefused).
@@ -516,7 +566,7 @@ Proof.
       { unfold read_ok. rewrite F1, F2. simpl. rewrite ?andb_false_r. reflexivity. }
       rewrite X. simpl. rewrite !orb_true_r. reflexivity.
     - rewrite F, V. simpl. rewrite !orb_true_r. reflexivity. }
-  split; [exact R |]. intros e H. exact (refused_only_lock_log _ _ _ _ R H).
+  split; [exact R |]. intros e H. unfold lock_or_log. destruct (refused_effects _ _ _ _ R H) as [E | [E | [_ C]]]; auto.
 Qed.
 
 Definition sync_can_start (o : opts) (p : pre) : Prop :=
@@ -599,11 +649,11 @@ Qed.
 (* ------------------------------------------------------------------------------------------- non-vacuity *)
 
 Definition o0 : opts := mkOpts true false false false false false false false false false false false 0 0 false [] false false false false.
-Definition ds_ok : diskscan := mkDS 3 0 0 0 0 0 0 false.
-Definition ds_gone : diskscan := mkDS 0 0 0 4 0 2 3 false.
-Definition ds_zero1 : diskscan := mkDS 3 0 0 0 1 0 0 true.
+Definition ds_ok : diskscan := mkDS 3 0 0 0 0 0 0 0 false.
+Definition ds_gone : diskscan := mkDS 0 0 0 4 0 0 2 3 false.
+Definition ds_zero1 : diskscan := mkDS 3 0 0 0 1 0 0 0 true.
 Definition p0 (disks : list diskscan) (pblocks : list N) : pre :=
-  mkPre true true 2 2 true true false false false false 0 disks true 9 7 [true; true] [true; true] pblocks [false; true] [false; true] false [0; 1] false false 0 false false true
+  mkPre true true 2 2 true true false false false false 0 disks true 9 7 [true; true] [true; true] pblocks [false; false] [false; true] [false; true] false [0; 1] false false 0 false false true
         [] [] [false; false] [] true [].
 
 Example ex_sync_proceeds :
@@ -637,7 +687,7 @@ Definition it_unsel : fixitem := mkFI 0 3 OFile false true false false FRecovera
 Definition it_bad : fixitem := mkFI 0 4 OFile true false false true FUnrecoverable true false true [].
 Definition o_fix : opts := mkOpts true false false false false false false false false false false false 0 0 true [true; false] false false false false.
 Definition p_fix : pre :=
-  mkPre true true 2 2 true true false false false false 0 [ds_ok; ds_ok] false 9 9 [true; true] [true; true] [9; 9] [false; false] [false; false] false [] false false 0 false false false
+  mkPre true true 2 2 true true false false false false 0 [ds_ok; ds_ok] false 9 9 [true; true] [true; true] [9; 9] [false; false] [false; false] [false; false] false [] false false 0 false false false
         [it_missing; it_unsel; it_bad] [(0, 2); (1, 2)] [false; true] [] true [].
 Example ex_fix :
   run_full Fix o_fix p_fix =
@@ -652,7 +702,7 @@ Qed.
 
 Example ex_check_readonly : run Check o0 (p0 [ds_ok; ds_gone] [9; 2]) = ([WLog; WLock], ExOk).
 Proof. vm_compute. reflexivity. Qed.
-Example ex_touch : run Touch o0 (mkPre true true 1 1 true true false false false false 0 [ds_ok] false 3 3 [true] [true] [3] [false] [false] false [] false false 0 false false false
+Example ex_touch : run Touch o0 (mkPre true true 1 1 true true false false false false 0 [ds_ok] false 3 3 [true] [true] [3] [false] [false] [false] false [] false false 0 false false false
                                         [] [] [false] [(0, 5)] true []) = ([WLog; WLock; WData 0 5 KUtime; WContent 0], ExOk).
 Proof. vm_compute. reflexivity. Qed.
 Example ex_lock_trace :
@@ -770,12 +820,53 @@ Proof. vm_compute. reflexivity. Qed.
 
 (* scan.c:1837-1841: the all-missing / all-rewritten rule looks at equal, move, restore, remove, change only: whatever new files
    or copies appeared on the disk (insert and copy counters) does not matter *)
-Lemma empty_trigger_ignores_new_files : forall e m r rm ch i1 c1 i2 c2 z1 z2,
-  empty_trigger_disk (mkDS e m r rm ch i1 c1 z1) = empty_trigger_disk (mkDS e m r rm ch i2 c2 z2).
+Lemma empty_trigger_ignores_new_files : forall e m r rm ch el i1 c1 i2 c2 z1 z2,
+  empty_trigger_disk (mkDS e m r rm ch el i1 c1 z1) = empty_trigger_disk (mkDS e m r rm ch el i2 c2 z2).
 Proof. reflexivity. Qed.
 
 Lemma empty_trigger_disk_iff : forall d, empty_trigger_disk d = true <->
   ds_equal d = 0 /\ ds_move d = 0 /\ ds_restore d = 0 /\ (ds_remove d <> 0 \/ ds_change d <> 0).
 Proof.
   intros d. unfold empty_trigger_disk, is0. rewrite !andb_true_iff, negb_true_iff, andb_false_iff, !N.eqb_eq, !N.eqb_neq. tauto.
+Qed.
+
+(* Links and the empty-disk rule.  The property speaks of FILES; scan.c counts an unchanged symbolic link or hardlink in `equal`.
+   Full-strength statement: forall o p, empty_trigger_files p = true -> o_force_empty o = false -> exitc Sync o p = ExRefused.
+   Refuted by the faithful model (finding F-C14-links-disarm-empty-disk-interlock): one disk, its only file removed, its one
+   unchanged link still there. *)
+Definition ds_link_only : diskscan := mkDS 1 0 0 1 0 1 0 0 false.
+Lemma empty_rule_links_refuted : exists o p,
+  empty_trigger_files p = true /\ o_force_empty o = false /\ exitc Sync o p = ExOk.
+Proof. exists o0, (p0 [ds_ok; ds_link_only] [9; 8]). vm_compute. auto. Qed.
+
+(* ... and true when no unchanged link is counted on any disk *)
+Lemma empty_rule_files_partial : forall p, (forall d, In d (p_disks p) -> ds_equal_links d = 0) ->
+  empty_trigger_files p = empty_trigger p.
+Proof.
+  intros p H. unfold empty_trigger_files, empty_trigger. induction (p_disks p) as [| d t IH]; [reflexivity |].
+  simpl. rewrite IH by (intros; apply H; right; assumption).
+  unfold empty_trigger_files_disk, empty_trigger_disk. rewrite (H d (or_introl eq_refl)), N.sub_0_r. reflexivity.
+Qed.
+
+Lemma empty_rule_files_refuses : forall o p, (forall d, In d (p_disks p) -> ds_equal_links d = 0) ->
+  empty_trigger_files p = true -> o_force_empty o = false ->
+  exitc Sync o p = ExRefused /\ forall e, In e (effects Sync o p) -> lock_or_log e \/ is_creation p e.
+Proof.
+  intros o p H F V. apply (interlock_refuses TEmpty); [| exact V]. simpl. rewrite <- (empty_rule_files_partial p H). exact F.
+Qed.
+
+(* "A refused sync changes nothing" is false to the letter: with a parity file missing, the refusal for short parity comes after
+   parity_create has made the file (finding F-C14-refused-sync-creates-empty-parity-file) *)
+Definition p_absent : pre :=
+  mkPre true true 2 2 true true false false false false 0 [ds_ok; ds_ok] true 9 7 [true; true] [true; true] [0; 9] [true; false] [true; false] [true; false]
+        false [0; 1] false false 0 false false true [] [] [false; false] [] true [].
+Lemma refusal_changes_nothing_refuted : exists o p e,
+  exitc Sync o p = ExRefused /\ In e (effects Sync o p) /\ e <> WLock /\ e <> WLog.
+Proof. exists o0, p_absent, (RszParity 0). vm_compute. repeat split; auto; discriminate. Qed.
+
+Lemma interlock_refuses_strict : forall t o p, no_parity_absent p -> fires t p = true -> overridden t o = false ->
+  exitc Sync o p = ExRefused /\ forall e, In e (effects Sync o p) -> lock_or_log e.
+Proof.
+  intros t o p NA F V. destruct (interlock_refuses t o p F V) as [R H]. split; [exact R |].
+  intros e I. destruct (H e I) as [L | [l [_ [_ X]]]]; [exact L | rewrite (NA l) in X; discriminate].
 Qed.
